@@ -534,6 +534,15 @@ class Ctx:
 
     def finish(self, rule, level="proof", explanation=None):
         wall = time.time() - self.t0
+        # replay files of earlier runs of this property are stale: remove them
+        rd = os.path.join(VERIF, "replays")
+        if os.path.isdir(rd):
+            for f in os.listdir(rd):
+                if f.startswith(self.prop + "-") and f.endswith(".json"):
+                    try:
+                        os.remove(os.path.join(rd, f))
+                    except OSError:
+                        pass
         out_lines = []
         rc = 0
         for fid, n in self.known_hits.items():
@@ -586,7 +595,7 @@ class Ctx:
         cov.update(self.extra)
         ev = {
             "property_id": self.prop, "tier": self.tier, "seed": self.seed, "level": level,
-            "coverage": cov, "assumptions": self.assumptions, "wall_s": round(wall, 2),
+            "coverage": cov, "assumptions": (self.assumptions + self.trusted), "wall_s": round(wall, 2),
             "violations": len(self.failures) + (1 if (self.ties_broken and not self.failures) else 0),
         }
         d = os.path.join(VERIF, "evidence")
